@@ -274,6 +274,17 @@ class Qasm3Transformer:
                         0
                     ],
                 )
+            # a single bit only, as for the bare form `if (c[i])` below
+            if isinstance(condition.lhs.index, DiscreteSet):
+                raise_qasm3_error(
+                    message="DiscreteSet not supported in branching condition",
+                    span=condition.span,
+                )
+            if isinstance(condition.lhs.index[0], RangeDefinition):
+                raise_qasm3_error(
+                    message="RangeDefinition not supported in branching condition",
+                    span=condition.span,
+                )
             return (
                 condition.lhs.index[0].value,
                 condition.lhs.collection.name,
